@@ -38,6 +38,8 @@ impl<'a> DeserializationContext<'a> {
             end: input.len(),
             delta: 0,
         };
+        #[cfg(desert_verif)]
+        crate::verif::emit("dctx", input.len() as i64, 0, 0, 0, "");
         Self {
             input,
             state: Lazy::new(State::default),
@@ -56,6 +58,8 @@ impl<'a> DeserializationContext<'a> {
 
     pub fn try_read_ref(&mut self) -> Result<Option<&dyn Any>> {
         let id = self.read_var_u32()?;
+        #[cfg(desert_verif)]
+        crate::verif::emit("tref", id as i64, 0, 0, 0, "");
         if id == 0 {
             Ok(None)
         } else {
@@ -74,6 +78,15 @@ impl<'a> DeserializationContext<'a> {
             end: self.current.start + region.end,
             delta: self.current.start,
         };
+        #[cfg(desert_verif)]
+        crate::verif::emit(
+            "pushr",
+            region.start as i64,
+            region.pos as i64,
+            region.end as i64,
+            resolved_region.start as i64,
+            &format!("{} {}", resolved_region.end, self.current.start),
+        );
         self.region_stack.push(self.current);
         self.current = resolved_region;
     }
@@ -81,6 +94,8 @@ impl<'a> DeserializationContext<'a> {
     pub(crate) fn pop_region(&mut self) -> InputRegion {
         let result = self.current.unresolve();
         self.current = self.region_stack.pop().unwrap();
+        #[cfg(desert_verif)]
+        crate::verif::emit("popr", result.start as i64, result.pos as i64, result.end as i64, 0, "");
         result
     }
 
@@ -91,18 +106,30 @@ impl<'a> DeserializationContext<'a> {
 
 impl<'a> BinaryInput for DeserializationContext<'a> {
     fn read_u8(&mut self) -> Result<u8> {
+        #[cfg(desert_verif)]
+        let at = (self.current.start + self.current.pos) as i64;
         if self.current.start + self.current.pos >= self.current.end {
+            #[cfg(desert_verif)]
+            crate::verif::emit("r", at, 1, 0, 0, "");
             Err(Error::InputEndedUnexpectedly)
         } else {
+            #[cfg(desert_verif)]
+            crate::verif::emit("r", at, 1, 1, 0, "");
             self.current.pos += 1;
             Ok(self.input[self.current.start + self.current.pos - 1])
         }
     }
 
     fn read_bytes(&mut self, count: usize) -> Result<&[u8]> {
+        #[cfg(desert_verif)]
+        let at = (self.current.start + self.current.pos) as i64;
         if count > self.current.end.saturating_sub(self.current.start + self.current.pos) {
+            #[cfg(desert_verif)]
+            crate::verif::emit("r", at, count.min(i64::MAX as usize) as i64, 0, 0, "");
             Err(Error::InputEndedUnexpectedly)
         } else {
+            #[cfg(desert_verif)]
+            crate::verif::emit("r", at, count as i64, 1, 0, "");
             let start = self.current.start + self.current.pos;
             self.current.pos += count;
             Ok(&self.input[start..(self.current.start + self.current.pos)])
@@ -110,9 +137,15 @@ impl<'a> BinaryInput for DeserializationContext<'a> {
     }
 
     fn skip(&mut self, count: usize) -> Result<()> {
+        #[cfg(desert_verif)]
+        let at = (self.current.start + self.current.pos) as i64;
         if count > self.current.end.saturating_sub(self.current.start + self.current.pos) {
+            #[cfg(desert_verif)]
+            crate::verif::emit("sk", at, count.min(i64::MAX as usize) as i64, 0, 0, "");
             Err(Error::InputEndedUnexpectedly)
         } else {
+            #[cfg(desert_verif)]
+            crate::verif::emit("sk", at, count as i64, 1, 0, "");
             self.current.pos += count;
             Ok(())
         }
@@ -229,6 +262,15 @@ impl BinaryDeserializer for DeduplicatedString {
                 Some(id) => StringId(id),
                 None => return Err(Error::InvalidStringId(StringId(count_or_id))),
             };
+            #[cfg(desert_verif)]
+            crate::verif::emit(
+                "str",
+                id.0 as i64,
+                0,
+                0,
+                0,
+                context.state().get_string_by_id(id).unwrap_or("?"),
+            );
             match context.state().get_string_by_id(id) {
                 Some(s) => Ok(DeduplicatedString(s.to_string())),
                 None => Err(Error::InvalidStringId(id)),
